@@ -698,7 +698,7 @@ def parse_module(text):
     lines = text.split("\n")
     # first pass: named types
     for ln in lines:
-        m = re.match(r'^(%[-a-zA-Z$._0-9"]+)\s*=\s*type\s+(.*)$', ln)
+        m = re.match(r'^(%"[^"]+"|%[-a-zA-Z$._0-9]+)\s*=\s*type\s+(.*)$', ln)
         if m:
             mod.pending_types[m.group(1)[1:].strip('"')] = tokenize(m.group(2))
     for name in list(mod.pending_types):
@@ -707,7 +707,7 @@ def parse_module(text):
     while i < len(lines):
         ln = lines[i]
         if ln.startswith("@"):
-            m = re.match(r'^(@[-a-zA-Z$._0-9"]+)\s*=\s*(.*)$', ln)
+            m = re.match(r'^(@"[^"]+"|@[-a-zA-Z$._0-9]+)\s*=\s*(.*)$', ln)
             toks = tokenize(m.group(2))
             p = P(toks, mod)
             while p.peek()[1] in ("private", "internal", "external", "linkonce_odr", "weak_odr", "dso_local", "unnamed_addr",
